@@ -326,27 +326,51 @@ def property_on_synthetic(ctx, m):
 # 2. direct validation on real equations of state
 # =======================================================================================
 
+HYDRO_DEFAULT = (10, 0.01, 1e-8, 1e-8)
+# (tmax, tmin, rtol, atol): tight, the package default (config.py: 1e-6 / 1e-10), two with
+# rtol != atol in both orders, and a smaller hydro temperature window
+HYDRO_CHOICES = [(10, 0.01, 1e-8, 1e-8), (10, 0.01, 1e-6, 1e-10), (10, 0.01, 1e-7, 1e-9),
+                 (4, 0.01, 1e-9, 1e-7)]
+
+
+def c15_template_nan_class(alN, cb2, cs2):
+    """class rule of the C15 known finding template-alpha-below-threshold (template solver
+    returns NaN / wrong v+): cb2 > cs2 and alN <= (mu - nu)/(3 mu)"""
+    mu, nu = 1 + 1 / cs2, 1 + 1 / cb2
+    return cb2 > cs2 and alN <= (mu - nu) / (3 * mu)
+
+
 def eos_models(ctx):
-    from test_Hydrodynamics import TestModel2Step, TestModelBag
-    from test_HydroTemplateModel import TestModelTemplate
     out = []
+    rng = ctx.rng
     for Tn in ([0.5, 0.7, 0.8] if ctx.quick else
                [0.5, 0.55, 0.6, 0.65, 0.7, 0.75, 0.8, 0.85, 0.9, 0.95]):
-        out.append(("2step Tn=%g" % Tn, dict(eos="2step", Tn=Tn),
-                    lambda Tn=Tn: TestModel2Step(0.2, 0.1, 0.4, Tn)))
+        out.append(("2step Tn=%g" % Tn, dict(eos="2step", Tn=Tn)))
     for psi, Tn in ([(0.9, 0.9), (0.5, 0.9)] if ctx.quick else
                     [(0.9, 0.9), (0.9, 0.8), (0.8, 0.85), (0.7, 0.9), (0.5, 0.9), (0.95, 0.95)]):
-        out.append(("bag psi=%g Tn=%g" % (psi, Tn), dict(eos="bag", psi=psi, Tn=Tn),
-                    lambda psi=psi, Tn=Tn: TestModelBag(psi, Tn)))
-    rng = ctx.rng
-    for _ in range(ctx.n(2, 12)):
+        out.append(("bag psi=%g Tn=%g" % (psi, Tn), dict(eos="bag", psi=psi, Tn=Tn)))
+    want = ctx.n(2, 12)
+    while want:
         alN = round(rng.uniform(0.02, 0.25), 4)
         psiN = round(rng.uniform(0.6, 0.95), 4)
         cb2 = round(rng.uniform(0.26, 1 / 3), 4)
         cs2 = round(rng.uniform(0.28, 1 / 3), 4)
-        out.append(("template alN=%g psiN=%g cb2=%g cs2=%g" % (alN, psiN, cb2, cs2),
-                    dict(eos="template", alN=alN, psiN=psiN, cb2=cb2, cs2=cs2),
-                    lambda a=alN, p=psiN, b=cb2, s=cs2: TestModelTemplate(a, p, b, s, 1.0, 1.5)))
+        Tn = rng.choice([1.0, 1.0, 100.0])           # a second unit system
+        if c15_template_nan_class(alN, cb2, cs2):
+            # inside the quantifier, but the failure belongs to C15 (template solver NaN)
+            ctx.count("excluded_C15_template_alpha_below_threshold")
+            continue
+        want -= 1
+        out.append(("template alN=%g psiN=%g cb2=%g cs2=%g Tn=%g" % (alN, psiN, cb2, cs2, Tn),
+                    dict(eos="template", alN=alN, psiN=psiN, cb2=cb2, cs2=cs2, Tn=Tn)))
+    # solver settings: first model of each family tight, the others drawn (F5)
+    seen = set()
+    for label, case in out:
+        if case["eos"] in seen:
+            case["hydro"] = list(rng.choice(HYDRO_CHOICES))
+        else:
+            case["hydro"] = list(HYDRO_DEFAULT)
+            seen.add(case["eos"])
     return out
 
 
@@ -357,7 +381,16 @@ def make_model(case):
         return TestModel2Step(0.2, 0.1, 0.4, case["Tn"])
     if case["eos"] == "bag":
         return TestModelBag(case["psi"], case["Tn"])
-    return TestModelTemplate(case["alN"], case["psiN"], case["cb2"], case["cs2"], 1.0, 1.5)
+    Tn = case.get("Tn", 1.0)
+    m = TestModelTemplate(case["alN"], case["psiN"], case["cb2"], case["cs2"], Tn, 1.5 * Tn)
+    big = 10.0 * Tn
+    m.freeEnergyHigh.maxPossibleTemperature = [big, False]
+    m.freeEnergyLow.maxPossibleTemperature = [big, False]
+    m.freeEnergyHigh.minPossibleTemperature = [0.01 * Tn, False]
+    m.freeEnergyLow.minPossibleTemperature = [0.01 * Tn, False]
+    m.TMaxLowT = m.TMaxHighT = big
+    m.TMinLowT = m.TMinHighT = 0.01 * Tn
+    return m
 
 
 def set_ranges(model, TMaxLow=None, lowEnds=False, TMaxHigh=None, highEnds=False):
@@ -369,9 +402,56 @@ def set_ranges(model, TMaxLow=None, lowEnds=False, TMaxHigh=None, highEnds=False
         model.freeEnergyHigh.maxPossibleTemperature = [TMaxHigh, highEnds]
 
 
-def new_hydro(model):
+def new_hydro(model, args=None):
+    """Hydrodynamics(model, tmax, tmin, rtol, atol) built by the real constructor; the calls
+    root_scalar(vpDerivNum, ...) made by findJouguetVelocity are recorded from outside
+    (h.c06_jouguet: method, start, root, converged, the closure itself)."""
     import WallGo
-    return WallGo.Hydrodynamics(model, 10, 0.01, 1e-8, 1e-8)
+    import WallGo.hydrodynamics as hmod
+    args = tuple(args or HYDRO_DEFAULT)
+    rec = []
+    orig = hmod.root_scalar
+
+    def spy(f, *a, **k):
+        res = orig(f, *a, **k)
+        if getattr(f, "__name__", "") == "vpDerivNum":
+            rec.append(dict(f=f, method=k.get("method"), bracket=k.get("bracket"),
+                            x0=k.get("x0"), x1=k.get("x1"), root=float(res.root),
+                            converged=bool(res.converged)))
+        return res
+    hmod.root_scalar = spy
+    try:
+        h = WallGo.Hydrodynamics(model, *args)
+    finally:
+        hmod.root_scalar = orig
+    h.c06_jouguet = rec
+    h.c06_args = args
+    return h
+
+
+class MatchingGuard:
+    """While fastestDeflag / slowestDeton run: every exception raised INSIDE findMatching is
+    recorded (the methods' `except ValueError` is meant for brentq's sign error only)."""
+
+    def __init__(self, h):
+        self.h, self.errors, self.calls = h, [], 0
+
+    def __enter__(self):
+        inner = type(self.h).findMatching.__get__(self.h)
+
+        def wrapped(vw):
+            self.calls += 1
+            try:
+                return inner(vw)
+            except BaseException as ex:
+                self.errors.append((float(vw), repr(ex)))
+                raise
+        self.h.findMatching = wrapped
+        return self
+
+    def __exit__(self, *a):
+        del self.h.findMatching
+        return False
 
 
 def deton_residual(model, vw, tm):
@@ -384,18 +464,182 @@ def deton_residual(model, vw, tm):
     return vw ** 2 * (eH - eL) - (pH - pL) * (eL + pH) / (eH + pL)
 
 
-def admissibility(ctx, label, case, model, h):
-    """every matching over vw in [vMin, 0.99]: speeds, temperatures, branch, orderings"""
+def cj_reference(model):
+    """Independent Chapman-Jouguet point from p and e only: the minimum of
+    v+^2(T-) = (p+ - p-)(p+ + e-)/((e+ - e-)(e+ + p-)) over the detonation branch
+    (e- > e+, p- > p+).  Returns (vJ, T-)."""
+    from scipy.optimize import minimize_scalar
     Tn = model.Tnucl
-    lo = h.vMin + 2e-3 if h.vMin > h.vBracketLow else 0.02
-    nv = ctx.n(14, 60)
-    grid = list(np.linspace(lo, h.vJ * (1 - 1e-6), nv)) + \
-        list(np.linspace(h.vJ * (1 + 1e-6), 0.99, nv // 2 + 2))
-    # around the transition deflagration -> hybrid and around vJ
-    grid += [h.vJ * (1 - 1e-3), h.vJ * (1 + 1e-3)]
+    pH, eH = float(model.pHighT(Tn)), float(model.eHighT(Tn))
+
+    def vpsq(t):
+        pL, eL = float(model.pLowT(t)), float(model.eLowT(t))
+        if not (eH - eL < 0 and pH - pL < 0):
+            return float("inf")
+        return (pH - pL) * (pH + eL) / (eH - eL) / (eH + pL)
+    ts = np.geomspace(Tn, 40 * Tn, 4000)
+    vals = np.array([vpsq(t) for t in ts])
+    i = int(np.argmin(vals))
+    if not np.isfinite(vals[i]) or i == 0 or i == len(ts) - 1:
+        return None
+    r = minimize_scalar(vpsq, bounds=(ts[i - 1], ts[i + 1]), method="bounded",
+                        options=dict(xatol=1e-12 * Tn))
+    if not (0 < r.fun < 1):
+        return None
+    return math.sqrt(r.fun), float(r.x)
+
+
+MARGINS = {}
+
+
+def margin(name, value, tol):
+    """measured value / tolerance, worst case per check (recorded in the evidence)"""
+    if tol > 0 and np.isfinite(value):
+        MARGINS[name] = max(MARGINS.get(name, 0.0), float(value) / tol)
+
+
+def jouguet_checks(ctx, label, case, model, h, templ_exact):
+    """F1: the code's tmSol is a zero of vpDerivNum with a sign change - -> + (minimum of v+),
+    and the advertised vJ is the Chapman-Jouguet point; the only accepted deviation is the
+    documented fallback to the template's vJ when T-(CJ) lies outside the hydro temperature
+    window [.., tmax*Tn] (the detonation at vJ cannot be represented there)."""
+    Tn = model.Tnucl
+    tmax = h.c06_args[0]
+    rep = dict(kind="jouguet", case=case, hydro=list(h.c06_args), TMaxLowT=model.TMaxLowT,
+               vJ=h.vJ, template_vJ=h.template.vJ)
+    if not (isinstance(h.vJ, float) and 0 < h.vJ < 1):
+        ctx.fail_input("vJ=%r is not a velocity in (0,1) [%s]" % (h.vJ, label), rep,
+                       key="CJ:vJ-not-in-(0,1)")
+        return None
+    ref = cj_reference(model)
+    ctx.count("jouguet", dict(case=case, hydro=list(h.c06_args), cut=model.TMaxLowT),
+              bucket="tmax=%g" % tmax)
+    if ref is None:
+        ctx.broken.append("harness: no reference Chapman-Jouguet point for %s" % label)
+        return None
+    vref, Tref = ref
+    rep.update(vJ_reference=vref, Tm_reference=Tref)
+    THy = tmax * Tn
+    fell_back = (h.vJ == h.template.vJ)
+    if Tref > THy * (1 + 1e-3):
+        # outside the configured temperature window: only the documented fallback (logged by
+        # the code) or the true point are acceptable
+        ctx.count("jouguet_outside_hydro_window", bucket="fallback" if fell_back else "other")
+        if not fell_back and abs(h.vJ - vref) > 1e-6:
+            ctx.fail_input("T-(CJ)=%.4f > tmax*Tn=%.4f and vJ=%.8f is neither the template "
+                           "fallback %.8f nor the Chapman-Jouguet velocity %.8f [%s]" % (
+                               Tref, THy, h.vJ, h.template.vJ, vref, label), rep,
+                           key="CJ:vJ-not-chapman-jouguet")
+        return ref
+    if Tref > THy * (1 - 1e-3):
+        return ref                      # margin band around the window end
+    err = abs(h.vJ - vref)
+    # vJ is stationary in T-: an error d in tmSol moves vJ by O(d^2); 1e-7 also covers the
+    # reference's own minimisation (xatol 1e-12) -- measured margins are in the evidence
+    margin("vJ_vs_reference(1e-7)", err, 1e-7)
+    if err > 1e-7:
+        why = " = template fallback (silently: only a log line)" if fell_back and not templ_exact \
+            else ""
+        ctx.fail_input("vJ=%.8f%s but the Chapman-Jouguet velocity (minimum of v+ over T-) is "
+                       "%.8f at T-=%.5f = %.3f Tn < tmax*Tn [%s, tmax=%g, TMaxLowT=%.4g]" % (
+                           h.vJ, why, vref, Tref, Tref / Tn, label, tmax, model.TMaxLowT), rep,
+                       key="CJ:vJ-not-chapman-jouguet")
+        return ref
+    # the recorded solver call: hypothesis "vpDerivNum e tmSol = 0" of the CJ theorems
+    good = [r for r in h.c06_jouguet if r["converged"]]
+    if not good:
+        ctx.fail_input("vJ=%.8f is right but no converged root_scalar(vpDerivNum) call was "
+                       "recorded (%d calls) [%s]" % (h.vJ, len(h.c06_jouguet), label), rep,
+                       key="CJ:tmSol-not-recorded")
+        return ref
+    r = good[-1]
+    f, tm = r["f"], r["root"]
+    scale = max(abs(f(Tn)), abs(f(min(2 * Tn, THy))), 1e-300)
+    res = abs(f(tm))
+    # |f(root)| <~ |f'| * max(xtol, rtol*root): with f' ~ scale/Tn this is ~ rtol*scale*few
+    rtol = max(h.c06_args[2], h.c06_args[3] / Tn, 1e-12)
+    tol = 100 * rtol
+    margin("vpDerivNum(tmSol)/scale (100 rtol)", res / scale, tol)
+    rep.update(tmSol=tm, method=r["method"], residual=res / scale)
+    ctx.count("tmSol_zero", bucket=str(r["method"]))
+    if res > tol * scale:
+        ctx.fail_input("findJouguetVelocity accepted tmSol=%.8f from %s where |vpDerivNum| = "
+                       "%.3e * scale: not a zero [%s]" % (tm, r["method"], res / scale, label),
+                       rep, key="CJ:tmSol-not-a-zero")
+    d = 1e-3
+    if not (f(tm * (1 - d)) < 0 < f(tm * (1 + d))):
+        ctx.fail_input("vpDerivNum does not change sign - -> + across tmSol=%.8f (%.3e, %.3e): "
+                       "vJ is not a minimum of v+(T-) [%s]" % (tm, f(tm * (1 - d)),
+                                                              f(tm * (1 + d)), label), rep,
+                       key="CJ:tmSol-not-a-minimum")
+    # the reference T- sits in a flat minimum (accuracy ~ sqrt(eps) Tn): 1e-4 Tn
+    margin("tmSol_vs_reference(1e-4 Tn)", abs(tm - Tref) / Tn, 1e-4)
+    if abs(tm - Tref) > 1e-4 * Tn:
+        ctx.fail_input("tmSol=%.8f differs from the reference T-(CJ)=%.8f [%s]" % (
+            tm, Tref, label), rep, key="CJ:tmSol-not-a-zero")
+    return ref
+
+
+def clause_failures(kind, vw, vp, vm, Tp, Tm, cs, Tn, vJ, tol=1e-9):
+    """the admissibility clauses of the statement for one matching; list of failing clauses"""
+    bad = []
+    if not (0 < vp < 1 and 0 < vm <= 1 and (vm < 1 or vw >= 1)):
+        bad.append("speeds outside (0,1)")
+    if not (Tp > 0 and Tm > 0):
+        bad.append("temperature not positive")
+    if kind == "detonation":
+        if abs(vp - vw) > 1e-12:
+            bad.append("detonation with v+ != vw")
+        if abs(Tp - Tn) > 1e-12 * Tn:
+            bad.append("detonation with T+ != Tn")
+        if not vm < vp:
+            bad.append("detonation with v- >= v+")
+        # v- - cs ~ sqrt(vw - vJ) near vJ; 2e-4 relative is the measured rounding of
+        # sqrt(vpvm/vpovm) vs sqrt(csq) exactly AT the Jouguet point (see margins)
+        if vm < cs * (1 - 2e-4):
+            bad.append("detonation with v- below the sound speed behind the wall (strong branch)")
+    else:
+        if abs(vm - min(vw, cs)) > 1e-9:
+            bad.append("%s with v- != min(vw, cs(T-))" % kind)
+        if not vp < vm:
+            bad.append("%s with v+ >= v-" % kind)
+        # T+ - Tn is O(vw^2) for slow walls: compared at the accuracy of the shock solve
+        if not Tp > Tn * (1 - tol):
+            bad.append("%s with T+ below the nucleation temperature" % kind)
+    return bad
+
+
+def vw_grid(ctx, h):
+    """from the slow end of the bracket used by fastestDeflag (vMin + vBracketLow) to 0.99:
+    regular points, the points around vJ, and seeded random points stratified over the slow
+    end, the deflagration/hybrid transition, both sides of vJ and the ultra-relativistic end"""
+    rng = ctx.rng
+    lo0 = h.vMin + h.vBracketLow
+    nv = ctx.n(12, 50)
+    first = h.vMin + 2e-3 if h.vMin > h.vBracketLow else 0.02
+    head = [lo0] + [v for v in (2 * lo0, 4 * lo0, 8 * lo0) if v < first]
+    grid = head + list(np.linspace(first, h.vJ * (1 - 1e-6), nv)) + \
+        list(np.linspace(h.vJ * (1 + 1e-6), 0.99, nv // 2 + 2)) + \
+        [h.vJ * (1 - 1e-3), h.vJ * (1 + 1e-3)]
+    cb = getattr(h.template, "cb", 0.55)
+    grid += [math.exp(rng.uniform(math.log(lo0), math.log(max(first, 1.01 * lo0)))),
+             min(cb, h.vJ) * rng.uniform(0.9, 0.999),
+             min(cb, h.vJ) + (h.vJ - min(cb, h.vJ)) * rng.uniform(0.001, 0.2),
+             h.vJ * (1 - 10 ** rng.uniform(-5, -2)), h.vJ * (1 + 10 ** rng.uniform(-5, -2)),
+             rng.uniform(0.99, 0.9999)]
+    return sorted(set(float(v) for v in grid if lo0 <= v < 1)), set(float(v) for v in head)
+
+
+def admissibility(ctx, label, case, model, h):
+    """every matching over vw in [vMin+vBracketLow, 0.99]: speeds, temperatures, branch,
+    orderings.  Returns the curve and the velocity below which the known slow-wall finding
+    (spurious solution) was met (None if not)."""
+    Tn = model.Tnucl
+    grid, head = vw_grid(ctx, h)
     curve = []
-    for vw in sorted(grid):
-        rep = dict(kind="matching", case=case, vw=float(vw))
+    pending = []          # head points whose only failing clause concerns T+
+    for vw in grid:
+        rep = dict(kind="matching", case=case, vw=float(vw), hydro=list(h.c06_args))
         try:
             vp, vm, Tp, Tm = h.findMatching(float(vw))
         except Exception as ex:
@@ -407,51 +651,60 @@ def admissibility(ctx, label, case, model, h):
                            % (vw, label), rep, key="findMatching-none")
             continue
         vp, vm, Tp, Tm = float(vp), float(vm), float(Tp), float(Tm)
-        cs = math.sqrt(float(model.csqLowT(Tm)))
+        if not all(np.isfinite([vp, vm, Tp, Tm])):
+            ctx.fail_input("findMatching(%.6f) = (%r, %r, %r, %r) is not finite [%s]" % (
+                vw, vp, vm, Tp, Tm, label), rep, key="findMatching-not-finite")
+            continue
+        cs = math.sqrt(max(float(model.csqLowT(Tm)), 0.0))
         rep.update(vp=vp, vm=vm, Tp=Tp, Tm=Tm, cs_minus=cs, vJ=h.vJ)
         deton = vw > h.vJ
         kind = "detonation" if deton else ("deflagration" if vw < cs else "hybrid")
         ctx.count("admissibility", dict(case=case, vw=round(float(vw), 9)),
                   bucket="%s:%s" % (case["eos"], kind))
-        bad = None
-        if not (0 < vp < 1 and 0 < vm <= 1 and Tp > 0 and Tm > 0):
-            bad = "speeds/temperatures outside (0,1) / not positive"
-        elif deton:
-            if abs(vp - vw) > 1e-12:
-                bad = "detonation with v+ != vw"
-            elif abs(Tp - Tn) > 1e-12 * Tn:
-                bad = "detonation with T+ != Tn"
-            elif not vm < vp:
-                bad = "detonation with v- >= v+"
-            elif vm < cs * (1 - 2e-4):
-                bad = "detonation with v- below the sound speed behind the wall (strong branch)"
-            else:
-                # hypothesis of first_root_detonation_is_weak: residual >= 0 on [Tn, Tm)
-                ts = np.linspace(Tn, Tm, 24)[:-1]
-                r = [deton_residual(model, vw, t) for t in ts]
-                sc = abs(deton_residual(model, vw, Tn)) + 1e-300
-                ctx.count("first_root_scan")
-                if min(r) < -1e-7 * sc:
-                    bad = "detonation root is not the first root above Tn (residual changes " \
-                          "sign before it)"
+        bad = clause_failures(kind, vw, vp, vm, Tp, Tm, cs, Tn, h.vJ,
+                              tol=max(1e-9, 10 * max(h.c06_args[2], h.c06_args[3])))
+        if deton and not bad:
+            # hypothesis of first_root_detonation_is_weak: residual >= 0 on [Tn, Tm)
+            ts = np.linspace(Tn, Tm, 24)[:-1]
+            r = [deton_residual(model, vw, t) for t in ts]
+            sc = abs(deton_residual(model, vw, Tn)) + 1e-300
+            ctx.count("first_root_scan")
+            if min(r) < -1e-7 * sc:
+                bad.append("detonation root is not the first root above Tn (residual changes "
+                           "sign before it)")
+        slow = (not deton) and vw < 0.01
+        offT = abs(Tp - Tn) > 5e-3 * Tn        # a wall this slow heats the plasma by < 1e-4 Tn
+        if slow and offT and all("T+ below" in b for b in bad):
+            pending.append((vw, rep, bad))
         else:
-            if abs(vm - min(vw, cs)) > 1e-9:
-                bad = "%s with v- != min(vw, cs(T-))" % kind
-            elif not vp < vm:
-                bad = "%s with v+ >= v-" % kind
-            elif not Tp > Tn * (1 - 1e-9):
-                bad = "%s with T+ below the nucleation temperature" % kind
-        if bad:
-            ctx.fail_input("vw=%.6f: %s (v+=%.6f v-=%.6f T+=%.6f T-=%.6f cs-=%.6f vJ=%.6f) [%s]"
-                           % (vw, bad, vp, vm, Tp, Tm, cs, h.vJ, label), rep,
-                           key="admissibility:" + bad.split(" (")[0])
+            for b in bad:
+                ctx.fail_input("vw=%.6f: %s (v+=%.6f v-=%.6f T+=%.6f T-=%.6f cs-=%.6f vJ=%.6f) "
+                               "[%s]" % (vw, b, vp, vm, Tp, Tm, cs, h.vJ, label), rep,
+                               key="admissibility:" + b.split(" (")[0])
         curve.append((float(vw), Tp, Tm, deton))
-    return curve
+    # narrow class rule of the known finding findMatching:spurious-slow-wall-solution: a wall
+    # slower than 0.01 whose T+ is off Tn by > 0.5% although the next faster scanned wall
+    # (< 0.05) has T+ within 0.1% of Tn, and no other clause fails at that point
+    jump_v = None
+    for vw, rep, bad in pending:
+        nxt = [c for c in curve if vw < c[0] < 0.05 and abs(c[1] - Tn) < 1e-3 * Tn]
+        if nxt:
+            jump_v = max(jump_v or 0.0, nxt[0][0])
+            ctx.fail_input("vw=%.6f: spurious slow-wall solution T+=%.6f T-=%.6f (Tn=%.4g; at "
+                           "vw=%.4g T+=%.6f) [%s]" % (vw, rep["Tp"], rep["Tm"], Tn, nxt[0][0],
+                                                     nxt[0][1], label), rep,
+                           key="findMatching:spurious-slow-wall-solution")
+        else:
+            for b in bad or ["slow wall with T+ off the nucleation temperature"]:
+                ctx.fail_input("vw=%.6f: %s (T+=%.6f T-=%.6f Tn=%.4g) [%s]" % (
+                    vw, b, rep["Tp"], rep["Tm"], Tn, label), rep,
+                    key="admissibility:" + b.split(" (")[0])
+    return curve, jump_v
 
 
 def chapman_jouguet(ctx, label, case, model, h):
     """a detonation at the Jouguet velocity has v- = cs(T-); vJ separates the families"""
-    rep = dict(kind="CJ", case=case, vJ=h.vJ)
+    rep = dict(kind="CJ", case=case, vJ=h.vJ, hydro=list(h.c06_args))
     ctx.count("chapman_jouguet", case)
     eps = 1e-9
     try:
@@ -463,42 +716,89 @@ def chapman_jouguet(ctx, label, case, model, h):
     cs = math.sqrt(float(model.csqLowT(Tm)))
     rep.update(vm=float(vm), cs_minus=cs, Tm=float(Tm))
     # sensitivity: v- - cs ~ sqrt(vw - vJ); vJ itself is known to ~rtol
+    margin("sonic_at_vJ(2e-3)", abs(vm - cs), 2e-3)
     if abs(vm - cs) > 2e-3:
         ctx.fail_input("detonation at the Jouguet velocity vJ=%.8f has v-=%.6f but cs(T-)=%.6f "
                        "(T-=%.6f) [%s]" % (h.vJ, vm, cs, Tm, label), rep, key="CJ:not-sonic")
-    # no detonation solution below vJ: the residual stays positive (vJ is the smallest v+)
-    vw = h.vJ * (1 - 1e-3)
-    ts = np.linspace(model.Tnucl, 3 * model.Tnucl, 400)
-    vals = [deton_residual(model, vw, t) for t in ts]
-    # ignore the region before the pole of v+v- (e+ = e-)
-    if min(vals) <= 0:
-        ctx.fail_input("a detonation matching exists at vw=%.6f < vJ=%.6f (residual <= 0 at "
-                       "T-=%.5f) [%s]" % (vw, h.vJ, ts[int(np.argmin(vals))], label),
-                       dict(rep, vw=vw), key="CJ:detonation-below-vJ")
+    vJ_is_smallest_detonation(ctx, label, rep, model, h)
     # template closed form on the template EOS
     if case["eos"] == "template":
         t = h.template
         if abs(t.vJ - h.vJ) > 1e-5:
             ctx.fail_input("template vJ=%.8f differs from the general vJ=%.8f on the template "
                            "EOS [%s]" % (t.vJ, h.vJ, label), rep, key="CJ:template-vJ")
-        vp, vm, Tp, Tm = t.detonationVAndT(t.vJ)
-        if abs(vm - t.cb) > 1e-6:
-            ctx.fail_input("template detonation at vJ has v-=%.8f != cb=%.8f [%s]" % (
-                vm, t.cb, label), rep, key="CJ:template-not-sonic")
-        for vw in np.linspace(t.vJ * (1 + 1e-6), 0.995, 9):
-            vp, vm, Tp, Tm = t.detonationVAndT(float(vw))
-            ctx.count("template_deton_branch")
-            if not (t.cb * (1 - 1e-9) <= vm < vp == vw):
-                ctx.fail_input("template detonation vw=%.6f: v-=%.6f not in [cb=%.6f, v+) [%s]"
-                               % (vw, vm, t.cb, label), dict(rep, vw=float(vw)),
-                               key="template:deton-branch")
+    t = h.template          # the template model of ANY equation of state is a template model
+    vp, vm, Tp, Tm = t.detonationVAndT(t.vJ)
+    if abs(vm - t.cb) > 1e-6:
+        ctx.fail_input("template detonation at vJ has v-=%.8f != cb=%.8f [%s]" % (
+            vm, t.cb, label), rep, key="CJ:template-not-sonic")
+    for vw in np.linspace(t.vJ * (1 + 1e-6), 0.995, 9):
+        vp, vm, Tp, Tm = t.detonationVAndT(float(vw))
+        ctx.count("template_deton_branch")
+        if not (t.cb * (1 - 1e-9) <= vm < vp == vw):
+            ctx.fail_input("template detonation vw=%.6f: v-=%.6f not in [cb=%.6f, v+) [%s]"
+                           % (vw, vm, t.cb, label), dict(rep, vw=float(vw)),
+                           key="template:deton-branch")
+
+
+def template_deflagration_branch(ctx, label, case, h):
+    """the template model's own findMatching below its vJ (used by WallGoManager and as the
+    fallback of Hydrodynamics.findMatching): same admissibility clauses"""
+    t = h.template
+    if c15_template_nan_class(t.alN, t.cb2, t.cs2):
+        ctx.count("template_branch_skipped_C15_class")
+        return
+    Tn = t.Tnucl
+    for vw in np.linspace(max(t.vMin, 0.0) + 0.02, t.vJ * (1 - 1e-4), ctx.n(5, 12)):
+        rep = dict(kind="template-matching", case=case, vw=float(vw))
+        try:
+            vp, vm, Tp, Tm = t.findMatching(float(vw))
+        except Exception as ex:
+            ctx.fail_input("template.findMatching(%.6f) raised %r [%s]" % (vw, ex, label), rep,
+                           key="template:findMatching-raises")
+            continue
+        ctx.count("template_deflag_branch")
+        if vp is None:
+            ctx.fail_input("template.findMatching(%.6f) returned no solution above its vMin=%.4f "
+                           "[%s]" % (vw, t.vMin, label), rep, key="template:findMatching-none")
+            continue
+        vp, vm, Tp, Tm = float(vp), float(vm), float(Tp), float(Tm)
+        kind = "deflagration" if vw < t.cb else "hybrid"
+        ok = all(np.isfinite([vp, vm, Tp, Tm]))
+        bad = clause_failures(kind, vw, vp, vm, Tp, Tm, t.cb, Tn, t.vJ) if ok else ["not finite"]
+        for b in bad:
+            ctx.fail_input("template vw=%.6f: %s (v+=%.6f v-=%.6f T+=%.6f T-=%.6f cb=%.6f) [%s]"
+                           % (vw, b, vp, vm, Tp, Tm, t.cb, label), rep,
+                           key="template-admissibility:" + b.split(" (")[0])
+
+
+def vmin_consistency(ctx, label, case, h):
+    """vMin is the code's own ground truth for every grid and bracket above: when it is not
+    the floor vBracketLow it must be where the strongest shock reaches Tn (sign change of
+    strongestShock - Tn), and strictly below vJ"""
+    rep = dict(kind="vMin", case=case, vMin=h.vMin, hydro=list(h.c06_args))
+    ctx.count("vMin_consistency", bucket="floor" if h.vMin <= h.vBracketLow else "shock")
+    if not (h.vBracketLow <= h.vMin < h.vJ):
+        ctx.fail_input("vMin=%r is not in [vBracketLow, vJ=%.6f) [%s]" % (h.vMin, h.vJ, label),
+                       rep, key="vMin:not-below-vJ")
+        return
+    if h.vMin > h.vBracketLow:
+        Tn = h.Tnucl
+        a = h.strongestShock(h.vMin * 0.99) - Tn
+        b = h.strongestShock(min(h.vMin * 1.01, h.vJ)) - Tn
+        c = h.strongestShock(h.vMin) - Tn
+        margin("strongestShock(vMin)-Tn (1e-4 Tn)", abs(c) / Tn, 1e-4)
+        if not (a * b < 0 and abs(c) < 1e-4 * Tn):
+            ctx.fail_input("vMin=%.6f is not where the strongest shock reaches Tn: "
+                           "strongestShock-Tn = %.3e, %.3e, %.3e at 0.99 vMin, vMin, 1.01 vMin [%s]"
+                           % (h.vMin, a, c, b, label), rep, key="vMin:not-strongest-shock-root")
 
 
 def vJ_is_smallest_detonation(ctx, label, rep, model, h):
     """Chapman-Jouguet point, stated with p and e only (so also valid when the tabulated
     ranges are cut): a detonation matching exists just above the advertised vJ and none just
     below it."""
-    ts = np.linspace(model.Tnucl, 3 * model.Tnucl, 600)
+    ts = np.geomspace(model.Tnucl, 12 * model.Tnucl, 1200)
     below = min(deton_residual(model, h.vJ * (1 - 2e-3), t) for t in ts)
     above = min(deton_residual(model, h.vJ * (1 + 2e-3), t) for t in ts)
     ctx.count("vJ_smallest_detonation")
@@ -518,22 +818,39 @@ def monotone(vals, increasing, rel=1e-6):
     return bad
 
 
-def big_drops(vals, frac=0.05):
-    span = max(vals) - min(vals)
-    return sum(1 for a, b in zip(vals, vals[1:]) if a - b > frac * span)
+def call_guarded(ctx, label, rep, h, name):
+    """h.fastestDeflag() / h.slowestDeton() with findMatching guarded; returns value or None"""
+    with MatchingGuard(h) as g:
+        try:
+            val = float(getattr(h, name)())
+            raised = None
+        except Exception as ex:
+            val, raised = None, ex
+    ctx.count(name + "_guarded_calls")
+    if raised is not None:
+        ctx.fail_input("%s raised %r [%s]" % (name, raised, label), rep, key=name + "-raises")
+    elif g.errors:
+        ctx.fail_input("%s()=%.6f swallowed an exception raised inside findMatching(%.6f): %s "
+                       "[%s]" % (name, val, g.errors[0][0], g.errors[0][1], label),
+                       dict(rep, errors=g.errors[:3]), key=name + ":foreign-exception-swallowed")
+    return val
 
 
-def range_limits(ctx, label, case, curve, h0):
+def range_limits(ctx, label, case, curve, h0, jump_v):
     """tabulated ranges that cut the window short, with the 'phase really ends' flag both
     ways: the advertised fastest deflagration / slowest detonation"""
-    Tn = case.get("Tn", 1.0)
-    defl = [(v, Tp, Tm) for v, Tp, Tm, d in curve if not d]
+    Tn = h0.Tnucl
+    args = h0.c06_args
+    rtol = max(args[2], args[3])
+    tolT = max(2e-5, 30 * rtol)   # T at a velocity known to ~rtol, dT/dvw = O(1): measured below
+    defl = [(v, Tp, Tm) for v, Tp, Tm, d in curve if not d and (jump_v is None or v >= jump_v)]
     det = [(v, Tp, Tm) for v, Tp, Tm, d in curve if d]
     if len(defl) < 4 or len(det) < 3:
+        ctx.broken.append("harness: too few matchings for the range tests on %s" % label)
         return
-    # hypothesis of the theorems: monotone in vw (scanned)
-    nm = monotone([x[2] for x in defl], True) + monotone([x[1] for x in defl], True)
-    nd = monotone([x[2] for x in det], False)
+    # hypothesis of the theorems: monotone in vw (scanned, above the known slow-wall jump)
+    nm = monotone([x[2] for x in defl], True, 1e-3) + monotone([x[1] for x in defl], True, 1e-3)
+    nd = monotone([x[2] for x in det], False, 1e-3)
     ctx.count("monotonicity_scan", bucket="violations=%d" % (nm + nd))
     if nm + nd:
         ctx.log("note: T+-(vw) not monotone on the scan for", label, "(%d steps)" % (nm + nd))
@@ -541,92 +858,73 @@ def range_limits(ctx, label, case, curve, h0):
     Tm_lo, Tm_hi = defl[0][2], defl[-1][2]
     Tp_lo, Tp_hi = defl[0][1], defl[-1][1]
     big = 50.0 * Tn
-    configs = []
-    fr = rng.uniform(0.25, 0.9)
-    configs.append(("low", Tm_lo + fr * (Tm_hi - Tm_lo), big))
-    fr = rng.uniform(0.25, 0.9)
-    configs.append(("high", big, Tp_lo + fr * (Tp_hi - Tp_lo)))
-    configs.append(("both", Tm_lo + rng.uniform(0.3, 0.9) * (Tm_hi - Tm_lo),
-                    Tp_lo + rng.uniform(0.3, 0.9) * (Tp_hi - Tp_lo)))
-    configs.append(("ample", big, big))
-    # preconditions of the decision model at the slow end of the bracket that fastestDeflag
-    # hands to brentq: findMatching returns a solution there, and T+-(vw) are monotone from
-    # there on (the vw grid of `admissibility` starts a little higher)
-    lo0 = h0.vMin + h0.vBracketLow
-    start = h0.findMatching(lo0)
-    if start[0] is None:
-        ctx.count("window_start_unsolved", case)
-        ctx.log("observation: findMatching(vMin+vBracketLow=%.4g) returns no solution for %s; "
-                "fastestDeflag would raise TypeError there -- outside the quantifier (no "
-                "matching returned), range test of the deflagration window skipped" % (
-                    lo0, label))
-        configs = []
-        # reported as a finding only once it is listed in known_findings.json (see report)
-        key = "fastestDeflag:window-start-unsolved"
-        if any(k.get("property") == "C06" and k.get("key") == key
-               for k in ctx.known.get("findings", [])):
-            ctx.fail_input("findMatching(vMin+vBracketLow) returns no solution; fastestDeflag "
-                           "raises TypeError when a range cuts the window [%s]" % label,
-                           dict(kind="range", case=case, which="low", TMaxLowT=Tm_hi,
-                                TMaxHighT=big, lowEnds=False, highEnds=False), key=key)
-    else:
-        head = [(lo0, float(start[2]), float(start[3]))]
-        for v in (2 * lo0, 4 * lo0, 8 * lo0):
-            if v < defl[0][0]:
-                r = h0.findMatching(v)
-                if r[0] is not None:
-                    head.append((v, float(r[2]), float(r[3])))
-        full = head + defl
-        # a drop of more than 5% of the total variation over the window (small dips at very
-        # slow walls are solver noise and stay far below the range levels tried here)
-        nb = big_drops([x[2] for x in full]) + big_drops([x[1] for x in full])
-        ctx.count("window_start_monotone_scan", bucket="violations=%d" % nb)
-        if nb:
-            ctx.count("window_not_monotone", case)
-            ctx.log("observation: T+-(vw) jump at the slow end of the window for %s: %s ... "
-                    "(hypothesis of the range theorems fails: spurious matching at very small vw)"
-                    "; range test of the deflagration window skipped" % (
-                        label, ["vw=%.4g T+=%.5f T-=%.5f" % x for x in full[:5]]))
-            configs = []
-            key = "findMatching:spurious-slow-wall-solution"
-            if any(k.get("property") == "C06" and k.get("key") == key
-                   for k in ctx.known.get("findings", [])):
-                ctx.fail_input("findMatching returns a spurious solution at the slow end of the "
-                               "window (T+-(vw) jump) [%s]" % label,
-                               dict(kind="matching", case=case, vw=lo0), key=key)
+    configs = [("low", Tm_lo + rng.uniform(0.25, 0.9) * (Tm_hi - Tm_lo), big),
+               ("high", big, Tp_lo + rng.uniform(0.25, 0.9) * (Tp_hi - Tp_lo)),
+               ("both", Tm_lo + rng.uniform(0.3, 0.9) * (Tm_hi - Tm_lo),
+                Tp_lo + rng.uniform(0.3, 0.9) * (Tp_hi - Tp_lo)),
+               ("ample", big, big)]
+    known_key = "findMatching:spurious-slow-wall-solution"
+    prev_raised_flag = False
     for which, TML, TMH in configs:
         if TML <= Tn or TMH <= Tn:
             continue          # the nucleation temperature must be inside both tables
         results = {}
-        for lowEnds, highEnds in ((False, False), (True, True)) if ctx.quick else \
-                ((False, False), (True, True), (True, False), (False, True)):
+        combos = [(False, False), (True, True)] if ctx.quick else \
+            [(False, False), (True, True), (True, False), (False, True)]
+        rng.shuffle(combos)
+        for lowEnds, highEnds in combos:
             model = make_model(case)
             set_ranges(model, TML, lowEnds, TMH, highEnds)
             rep = dict(kind="range", case=case, which=which, TMaxLowT=TML, TMaxHighT=TMH,
-                       lowEnds=lowEnds, highEnds=highEnds)
+                       lowEnds=lowEnds, highEnds=highEnds, hydro=list(args))
             try:
-                h = new_hydro(model)
-                vmax = float(h.fastestDeflag())
+                h = new_hydro(model, args)
             except Exception as ex:
-                ctx.fail_input("fastestDeflag raised %r with ranges %s [%s]" % (ex, which, label),
-                               rep, key="fastestDeflag-raises")
+                ctx.fail_input("Hydrodynamics(...) raised %r with ranges %s [%s]" % (
+                    ex, which, label), rep, key="constructor-raises")
+                continue
+            # a freshly constructed object has no flag raised, whatever other objects did
+            fresh = [bool(x) for x in h.doesPhaseTraceLimitvmax]
+            ctx.count("fresh_flags", bucket="after-raised" if prev_raised_flag else "first")
+            if fresh != [False, False]:
+                ctx.fail_input("a freshly constructed Hydrodynamics object has "
+                               "doesPhaseTraceLimitvmax=%s [%s]" % (fresh, label), rep,
+                               key="fastestDeflag:fresh-object-flags")
+            vmax = call_guarded(ctx, label, rep, h, "fastestDeflag")
+            if vmax is None:
                 continue
             flags = [bool(x) for x in h.doesPhaseTraceLimitvmax]
+            prev_raised_flag = prev_raised_flag or any(flags)
             rep.update(vmax=vmax, vJ=h.vJ, flags=flags)
             vJ_is_smallest_detonation(ctx, label, rep, model, h)
             results[(lowEnds, highEnds)] = vmax
             ctx.count("fastestDeflag_real", dict(case=case, which=which, e=[lowEnds, highEnds]),
                       bucket="%s:%s" % (which, "cut" if vmax < h.vJ else "vJ"))
-            tolT = 2e-5
+            # history: a second call on the same object gives the same answer and flags
+            v2 = float(h.fastestDeflag())
+            f2 = [bool(x) for x in h.doesPhaseTraceLimitvmax]
+            if abs(v2 - vmax) > 1e-9 or f2 != flags:
+                ctx.fail_input("second fastestDeflag() on the same object: %.8f %s, first: %.8f %s"
+                               " [%s]" % (v2, f2, vmax, flags, label), rep,
+                               key="fastestDeflag:depends-on-history")
             lo = h.vMin + h.vBracketLow
             if vmax > h.vJ * (1 + 1e-12):
                 ctx.fail_input("fastestDeflag()=%.6f > vJ=%.6f [%s]" % (vmax, h.vJ, label), rep,
                                key="fastestDeflag:above-vJ")
+            if jump_v is not None and vmax <= jump_v * (1 + 1e-6):
+                # the recorded mechanism: brentq converged onto the jump of the spurious
+                # slow-wall solution; nothing else can be judged from this answer
+                ctx.fail_input("fastestDeflag()=%.6f is the position of the slow-wall jump "
+                               "(spurious solution below vw=%.4g) [%s]" % (vmax, jump_v, label),
+                               rep, key=known_key)
+                continue
             # every slower wall of the window inside both ranges
             top = min(vmax, h.vJ - h.vBracketLow) - 1e-6
-            for vw in np.linspace(lo + 1e-3, top, ctx.n(7, 25)):
+            bottom = max(lo + 1e-3, (jump_v or 0.0) * 1.001)
+            for vw in np.linspace(bottom, top, ctx.n(6, 25)):
                 _, _, Tp, Tm = h.findMatching(float(vw))
                 ctx.count("slower_wall")
+                margin("slower_wall_T/TMax-1 (tolT)", max(Tm / TML, Tp / TMH) - 1, tolT)
                 if Tm > TML * (1 + tolT) or Tp > TMH * (1 + tolT):
                     ctx.fail_input(
                         "fastestDeflag()=%.6f (vJ=%.6f) but the slower wall vw=%.6f has T-=%.6f "
@@ -637,13 +935,16 @@ def range_limits(ctx, label, case, curve, h0):
                     break
             if vmax < h.vJ * (1 - 1e-9):
                 _, _, Tp, Tm = h.findMatching(vmax)
-                if min(abs(Tm - TML) / TML, abs(Tp - TMH) / TMH) > 1e-4:
+                hit = min(abs(Tm - TML) / TML, abs(Tp - TMH) / TMH)
+                # brentq stops within max(xtol, rtol*v) of the crossing: 5 tolT
+                margin("range_hit (5 tolT)", hit, 5 * tolT)
+                if hit > 5 * tolT:
                     ctx.fail_input("fastestDeflag()=%.6f < vJ is not where a range is reached "
                                    "(T+=%.6f, T-=%.6f) [%s]" % (vmax, Tp, Tm, label), rep,
                                    key="fastestDeflag:not-a-range-hit")
                 # flags: raised iff the limiting range end is not a genuine end of the phase
-                hitL = abs(Tm - TML) / TML <= 1e-4
-                hitH = abs(Tp - TMH) / TMH <= 1e-4
+                hitL = abs(Tm - TML) / TML <= 5 * tolT
+                hitH = abs(Tp - TMH) / TMH <= 5 * tolT
                 if (flags[1] and lowEnds) or (flags[0] and highEnds):
                     ctx.fail_input("doesPhaseTraceLimitvmax=%s although the flagged phase "
                                    "really ends [%s]" % (flags, label), rep,
@@ -652,15 +953,20 @@ def range_limits(ctx, label, case, curve, h0):
                                                                 not flags[0]):
                     ctx.fail_input("range limits vmax but doesPhaseTraceLimitvmax=%s [%s]" % (
                         flags, label), rep, key="fastestDeflag:flag-not-raised")
-            elif which != "ample":
-                # the range is reached inside the window, so vJ must not be advertised
-                _, _, Tp, Tm = h.findMatching(h.vJ - h.vBracketLow)
-                if Tm > TML * (1 + tolT) or Tp > TMH * (1 + tolT):
-                    ctx.fail_input(
-                        "fastestDeflag() returns vJ=%.6f although at vw=vJ-%.0e T-=%.6f "
-                        "(TMaxLowT=%.6f) T+=%.6f (TMaxHighT=%.6f) [%s]" % (
-                            h.vJ, h.vBracketLow, Tm, TML, Tp, TMH, label), rep,
-                        key="fastestDeflag:slower-wall-out-of-range")
+            else:
+                if flags != [False, False]:
+                    ctx.fail_input("fastestDeflag() returned vJ (no range reached) but "
+                                   "doesPhaseTraceLimitvmax=%s [%s]" % (flags, label), rep,
+                                   key="fastestDeflag:flag-raised-without-limit")
+                if which != "ample":
+                    # the range is reached inside the window, so vJ must not be advertised
+                    _, _, Tp, Tm = h.findMatching(h.vJ - h.vBracketLow)
+                    if Tm > TML * (1 + tolT) or Tp > TMH * (1 + tolT):
+                        ctx.fail_input(
+                            "fastestDeflag() returns vJ=%.6f although at vw=vJ-%.0e T-=%.6f "
+                            "(TMaxLowT=%.6f) T+=%.6f (TMaxHighT=%.6f) [%s]" % (
+                                h.vJ, h.vBracketLow, Tm, TML, Tp, TMH, label), rep,
+                            key="fastestDeflag:slower-wall-out-of-range")
         vals = list(results.values())
         if vals and max(vals) - min(vals) > 1e-6:
             ctx.fail_input("fastestDeflag depends on the phase-end flags: %s [%s, %s]" % (
@@ -683,13 +989,16 @@ def range_limits(ctx, label, case, curve, h0):
             continue
         model = make_model(case)
         set_ranges(model, TML, False, TMH, False)
-        rep = dict(kind="range-deton", case=case, which=which, TMaxLowT=TML, TMaxHighT=TMH)
+        rep = dict(kind="range-deton", case=case, which=which, TMaxLowT=TML, TMaxHighT=TMH,
+                   hydro=list(args))
         try:
-            h = new_hydro(model)
-            vmin = float(h.slowestDeton())
+            h = new_hydro(model, args)
         except Exception as ex:
-            ctx.fail_input("slowestDeton raised %r with ranges %s [%s]" % (ex, which, label),
-                           rep, key="slowestDeton-raises")
+            ctx.fail_input("Hydrodynamics(...) raised %r with ranges %s [%s]" % (ex, which, label),
+                           rep, key="constructor-raises")
+            continue
+        vmin = call_guarded(ctx, label, rep, h, "slowestDeton")
+        if vmin is None:
             continue
         rep.update(vmin=vmin, vJ=h.vJ, Tm_at_1=Tm_1)
         ctx.count("slowestDeton_real", dict(case=case, which=which),
@@ -703,10 +1012,11 @@ def range_limits(ctx, label, case, curve, h0):
                                "%.6f <= TMaxLowT=%.6f [%s]" % (Tm_1, TML, label), rep,
                                key="slowestDeton:returns-1-although-admissible")
             continue
-        for vw in np.linspace(max(vmin, h.vJ + 1e-4), 0.999, ctx.n(7, 25)):
+        for vw in np.linspace(max(vmin, h.vJ + 1e-4), 0.999, ctx.n(6, 25)):
             _, _, Tp, Tm = h.findMatching(float(vw))
             ctx.count("faster_detonation")
-            if Tm > TML * (1 + 2e-5):
+            margin("faster_detonation_T/TMax-1 (tolT)", Tm / TML - 1, tolT)
+            if Tm > TML * (1 + tolT):
                 ctx.fail_input(
                     "slowestDeton()=%.6f (vJ=%.6f) but the faster detonation vw=%.6f has T-=%.6f"
                     " > TMaxLowT=%.6f (TMaxHighT=%.6f) [%s]" % (vmin, h.vJ, vw, Tm, TML, TMH,
@@ -716,33 +1026,94 @@ def range_limits(ctx, label, case, curve, h0):
                 break
         if h.vJ + 2e-3 < vmin < 1:
             _, _, Tp, Tm = h.findMatching(vmin - 0.01)
-            if abs(Tm - TML) / TML > 1e-4:
+            margin("slowest_range_hit (5 tolT)", abs(Tm - TML) / TML, 5 * tolT)
+            if abs(Tm - TML) / TML > 5 * tolT:
                 ctx.fail_input("slowestDeton()-0.01=%.6f is not where T- reaches TMaxLowT "
                                "(T-=%.6f, TMaxLowT=%.6f) [%s]" % (vmin - 0.01, Tm, TML, label),
                                rep, key="slowestDeton:not-a-range-hit")
 
 
-def direct_validation(ctx):
-    for label, case, mk in eos_models(ctx):
-        try:
-            model = mk()
-            h = new_hydro(model)
-        except Exception as ex:
-            ctx.log("skipping", label, "constructor raised", repr(ex))
+def strong_family(ctx):
+    """F1: strong transitions whose low-T table ends at about Tc (the normal outcome of phase
+    tracing, so the first bracket of findJouguetVelocity is [Tn, 2Tn]) with tmax in
+    {1.3, 2, 10}: the bracket-growing loop, the secant branch and the template fallback run"""
+    rng = ctx.rng
+    fam = []
+    for Tn in ([0.3, 0.4] if ctx.quick else [0.3, 0.33, 0.36, 0.4, 0.45]):
+        fam.append(("strong 2step Tn=%g" % Tn, dict(eos="2step", Tn=Tn), 1.0, False))
+    for psi, Tn in ([(0.3, 0.7), (0.15, 0.55)] if ctx.quick else
+                    [(0.3, 0.7), (0.15, 0.55), (0.2, 0.6), (0.4, 0.5), (0.1, 0.65)]):
+        fam.append(("strong bag psi=%g Tn=%g" % (psi, Tn), dict(eos="bag", psi=psi, Tn=Tn), 1.0,
+                    True))
+    for _ in range(ctx.n(1, 4)):
+        alN = round(rng.uniform(1 / 3, 1.5), 4)
+        psiN = round(rng.uniform(0.3, 0.7), 4)
+        cb2 = round(rng.uniform(0.26, 1 / 3), 4)
+        cs2 = round(rng.uniform(0.28, 1 / 3), 4)
+        if c15_template_nan_class(alN, cb2, cs2):
             continue
-        if not (0 < h.vJ < 0.985):
+        fam.append(("strong template alN=%g psiN=%g cb2=%g cs2=%g" % (alN, psiN, cb2, cs2),
+                    dict(eos="template", alN=alN, psiN=psiN, cb2=cb2, cs2=cs2, Tn=1.0), 1.2,
+                    True))
+    for label, case, Tc, templ_exact in fam:
+        for tmax in (1.3, 2, 10):
+            for cut in (True, False):
+                if not cut and tmax != 10:
+                    continue
+                model = make_model(case)
+                if cut:
+                    set_ranges(model, TMaxLow=Tc, lowEnds=True)
+                args = (tmax, 0.01, 1e-8, 1e-8)
+                rep = dict(kind="jouguet", case=case, hydro=list(args), TMaxLowT=model.TMaxLowT)
+                try:
+                    h = new_hydro(model, args)
+                except Exception as ex:
+                    ctx.fail_input("Hydrodynamics(...) raised %r [%s, tmax=%g]" % (ex, label, tmax),
+                                   rep, key="constructor-raises")
+                    continue
+                jouguet_checks(ctx, "%s tmax=%g cut=%s" % (label, tmax, cut), case, model, h,
+                               templ_exact)
+                if tmax == 10 and cut:
+                    vmin_consistency(ctx, label, case, h)
+
+
+def direct_validation(ctx):
+    models = eos_models(ctx)
+    first_template = True
+    for label, case in models:
+        rep = dict(kind="model", case=case)
+        try:
+            model = make_model(case)
+            h = new_hydro(model, case["hydro"])
+        except Exception as ex:
+            ctx.fail_input("Hydrodynamics(...) raised %r [%s]" % (ex, label), rep,
+                           key="constructor-raises")
+            continue
+        label = "%s hydro=%s" % (label, tuple(case["hydro"]))
+        ref = jouguet_checks(ctx, label, case, model, h, case["eos"] != "2step")
+        if ref is None:
+            continue
+        if not h.vJ < 0.985:
+            ctx.broken.append("harness: vJ=%.4f >= 0.985 for %s (outside the designed grid)" % (
+                h.vJ, label))
             continue
         ctx.sample(dict(eos=case, vJ=h.vJ, vMin=h.vMin))
         try:
-            curve = admissibility(ctx, label, case, model, h)
+            vmin_consistency(ctx, label, case, h)
+            curve, jump_v = admissibility(ctx, label, case, model, h)
             chapman_jouguet(ctx, label, case, model, h)
-            if case["eos"] != "template" or ctx.tier != "quick":
-                range_limits(ctx, label, case, curve, h)
+            template_deflagration_branch(ctx, label, case, h)
+            if case["eos"] != "template" or not ctx.quick or first_template:
+                range_limits(ctx, label, case, curve, h, jump_v)
+            if case["eos"] == "template":
+                first_template = False
         except Exception:
             import traceback
             ctx.log("direct validation raised on", label, traceback.format_exc())
             ctx.broken.append("harness: direct validation raised on %s" % label)
-
+    strong_family(ctx)
+    ctx.cov["margins"] = {k: round(v, 4) for k, v in sorted(MARGINS.items())}
+    ctx.log("measured/tolerance (worst case):", json.dumps(ctx.cov["margins"]))
 
 
 # =======================================================================================
@@ -755,7 +1126,8 @@ From WG Require Import Lib.NumpySem.
 From GenC06 Require Import HydroAdmGen.
 Local Open Scope R_scope.
 %(defs)s
-Definition e0 : env := {| Tnucl := %(Tn)s; vJ := %(vJ)s;
+Definition e0 : env := {| Tnucl := %(Tn)s; vJ := %(vJ)s; TMaxLowT := %(TML)s;
+  TMaxHydro := %(THmax)s; TMinHydro := %(THmin)s;
   pHighT := pH; pLowT := pL;
   eHighT := fun T => T * dpH T - pH T; eLowT := fun T => T * dpL T - pL T;
   wHighT := fun T => T * dpH T; wLowT := fun T => T * dpL T;
@@ -801,21 +1173,29 @@ def certified_eval_files(ctx):
     of the GENERATED residuals (hypothesis of the theorems, validated inside Coq), and the
     generated `*_ret` definitions reproduce the returned v-."""
     R = vlib.coq_R
-    cases = [dict(eos="2step", Tn=0.6), dict(eos="2step", Tn=0.8), dict(eos="bag", psi=0.9, Tn=0.9)]
+    cases = [dict(eos="2step", Tn=0.6), dict(eos="2step", Tn=0.8), dict(eos="bag", psi=0.9, Tn=0.9),
+             # strong transitions, low-T table up to Tc resp. just above Tn: the bracket-growing
+             # loop of findJouguetVelocity runs (only the tmSol goals)
+             dict(eos="bag", psi=0.3, Tn=0.7, cut=1.0, jouguet_only=True),
+             dict(eos="2step", Tn=0.3, cut=0.33, jouguet_only=True)]
     if not ctx.quick:
         cases += [dict(eos="2step", Tn=0.5), dict(eos="2step", Tn=0.9),
                   dict(eos="bag", psi=0.8, Tn=0.85), dict(eos="bag", psi=0.5, Tn=0.9)]
     files = []
     for k, case in enumerate(cases):
         model = make_model(case)
+        if case.get("cut"):
+            set_ranges(model, TMaxLow=case["cut"], lowEnds=True)
         h = new_hydro(model)
         Tn = model.Tnucl
         goals = []
         cs_n = math.sqrt(float(model.csqLowT(Tn)))
-        for vw in (0.6 * cs_n, 0.5 * (cs_n + h.vJ)):
+        for vw in (() if case.get("jouguet_only") else (0.6 * cs_n, 0.5 * (cs_n + h.vJ))):
             vp, vm, Tp, Tm = (float(x) for x in h.findMatching(vw))
             vp2, vm2, Tp2, Tm2 = (float(x) for x in h.matchDeflagOrHyb(vw, vp))
-            tol = 36e-5
+            # the code multiplies both equations by c = 36 here (Tp0=Tp, Tm0=Tm); a converged
+            # hybr solve (xtol=1e-8) leaves |eq| ~ 1e-8 (measured 3e-13): 36 * 1e-8
+            tol = 36e-8
             goals.append("Goal Rabs (fst (matching_fixed e0 %s %s %s %s %s %s)) <= %s /\\ "
                          "Rabs (snd (matching_fixed e0 %s %s %s %s %s %s)) <= %s.\n"
                          "Proof. split; ev. Qed." % (R(vw), R(vp), R(Tp2), R(Tm2), R(Tp2), R(Tm2),
@@ -824,7 +1204,7 @@ def certified_eval_files(ctx):
             goals.append("Goal Rabs (snd (fst (fst (deflag_ret_fixed e0 %s %s %s %s))) - %s) <= %s."
                          "\nProof. ev. Qed." % (R(vw), R(vp), R(Tp2), R(Tm2), R(vm2), R(1e-9)))
             ctx.count("certified_eval", dict(case=case, vw=vw), bucket="deflag/hybrid")
-        for vw in (h.vJ * 1.02, 0.5 * (h.vJ + 1), 0.97):
+        for vw in (() if case.get("jouguet_only") else (h.vJ * 1.02, 0.5 * (h.vJ + 1), 0.97)):
             vp, vm, Tp, Tm = (float(x) for x in h.matchDeton(vw))
             sc = abs(deton_residual(model, vw, Tn))
             goals.append("Goal Rabs (deton_residual e0 %s %s) <= %s.\nProof. ev. Qed." % (
@@ -837,7 +1217,27 @@ def certified_eval_files(ctx):
             goals.append("Goal Rabs (vJ_of_tm e0 %s - %s) <= %s.\nProof. ev. Qed." % (
                 R(Tm), R(vw), R(1e-6)))
             ctx.count("certified_eval", dict(case=case, vw=vw), bucket="detonation")
-        text = EVAL_HDR % dict(defs=eos_coq_defs(case), Tn=R(Tn), vJ=R(h.vJ)) + "\n".join(goals) + "\n"
+        # the code's own tmSol (recorded root_scalar call of findJouguetVelocity): it is a zero
+        # of the GENERATED vpDerivNum (hypothesis of the Chapman-Jouguet theorems), vpDerivNum
+        # changes sign - -> + across it (hypothesis of vJ_is_minimum_of_vp), and the generated
+        # tail evaluated there is the advertised vJ
+        good = [r for r in h.c06_jouguet if r["converged"]]
+        if good:
+            tm = good[-1]["root"]
+            f = good[-1]["f"]
+            sc = max(abs(f(Tn)), abs(f(2 * Tn)))
+            goals.append("Goal Rabs (vpDerivNum e0 %s) <= %s.\nProof. ev. Qed." % (
+                R(tm), R(1e-6 * sc)))
+            goals.append("Goal vpDerivNum e0 %s < 0 /\\ 0 < vpDerivNum e0 %s.\n"
+                         "Proof. split; ev. Qed." % (R(tm * (1 - 1e-3)), R(tm * (1 + 1e-3))))
+            goals.append("Goal Rabs (vJ_of_tm e0 %s - %s) <= %s.\nProof. ev. Qed." % (
+                R(tm), R(h.vJ), R(1e-12)))
+            ctx.count("certified_eval", dict(case=case, tmSol=tm), bucket="tmSol")
+        else:
+            ctx.broken.append("correspondence: no converged root_scalar(vpDerivNum) call "
+                              "recorded for %s" % json.dumps(case))
+        text = EVAL_HDR % dict(defs=eos_coq_defs(case), Tn=R(Tn), vJ=R(h.vJ), TML=R(model.TMaxLowT),
+                               THmax=R(h.TMaxHydro), THmin=R(h.TMinHydro)) + "\n".join(goals) + "\n"
         files.append((case, ctx.write("Cases/EvalEos_%d.v" % k, text)))
     return files
 
@@ -944,8 +1344,23 @@ def replay(rep):
     if kind in ("range", "range-deton"):
         set_ranges(model, rep["TMaxLowT"], rep.get("lowEnds", False), rep["TMaxHighT"],
                    rep.get("highEnds", False))
-    h = new_hydro(model)
-    print("vJ=%r vMin=%r" % (h.vJ, h.vMin))
+    elif kind == "jouguet" and rep.get("TMaxLowT") is not None:
+        set_ranges(model, TMaxLow=rep["TMaxLowT"], lowEnds=True)
+    h = new_hydro(model, rep.get("hydro") or case.get("hydro"))
+    print("Hydrodynamics args (tmax, tmin, rtol, atol) =", h.c06_args)
+    print("vJ=%r vMin=%r template.vJ=%r" % (h.vJ, h.vMin, h.template.vJ))
+    if kind == "jouguet":
+        print("reference Chapman-Jouguet point (vJ, T-) =", cj_reference(model))
+        for r in h.c06_jouguet:
+            print("root_scalar(vpDerivNum): method=%s start=%s root=%r converged=%s "
+                  "vpDerivNum(root)=%r" % (r["method"], r["bracket"] or (r["x0"], r["x1"]),
+                                           r["root"], r["converged"], r["f"](r["root"])))
+    if kind == "vMin":
+        print("strongestShock(0.99 vMin, vMin, 1.01 vMin) - Tn =",
+              [h.strongestShock(h.vMin * x) - h.Tnucl for x in (0.99, 1.0, 1.01)])
+    if kind == "template-matching":
+        print("template.findMatching(%r) =" % rep["vw"], h.template.findMatching(rep["vw"]))
+        return 1
     if kind == "range":
         print("findMatching(vMin+vBracketLow=%r) =" % (h.vMin + h.vBracketLow),
               h.findMatching(h.vMin + h.vBracketLow))
